@@ -23,7 +23,20 @@ open C2pa.C34 C2pa.C20
 /-- the rules of the statement for an update manifest, as the code tests them -/
 def UpdateRulesHold (c : C20.Claim) : Prop :=
   (∀ acts ∈ actionAssertions c, ∀ a ∈ acts, a.name ∈ allowedUpdateActions) ∧
-  thumbCount c ≤ 1 ∧ hasHash c = false ∧ parentCount c = 1
+  thumbCount c ≤ 1 ∧ hasBindingLabel c = false ∧ parentCount c = 1
+
+/-- the rule is by label (`has_assertion_type` over `HASH_LABELS`), which covers everything
+`hash_assertions()` returns — those are the created assertions whose label root is
+`c2pa.hash.data`, `c2pa.hash.bmff` or `c2pa.hash.boxes` — and also collection data hashes,
+multi-part hashes and gathered hash assertions -/
+theorem hasBindingLabel_of_hasHash (c : C20.Claim)
+    (hwl : ∀ a ∈ c.store, a.isHash = true → ∃ h ∈ hashLabels, h.isPrefixOf a.label = true)
+    (h : hasHash c = true) : hasBindingLabel c = true := by
+  unfold hasHash at h
+  unfold hasBindingLabel
+  obtain ⟨a, ha, hh⟩ := List.any_eq_true.1 h
+  obtain ⟨l, hl, hp⟩ := hwl a ha hh
+  exact List.any_eq_true.2 ⟨a, ha, List.any_eq_true.2 ⟨l, hl, hp⟩⟩
 
 theorem disallowedActionEvents_nil_iff (c : C20.Claim) (ing : Bool) :
     disallowedActionEvents c ing = [] ↔
@@ -65,7 +78,7 @@ theorem update_valid_iff_rules (c : C20.Claim) (ing : Bool) (hu : c.update = tru
     · by_cases ht : thumbCount c > 1
       · simp [ht] at h2
       · omega
-    · cases hh : hasHash c
+    · cases hh : hasBindingLabel c
       · rfl
       · simp [hh] at h3
   · rintro ⟨h1, h2, h3, h4⟩
@@ -87,6 +100,12 @@ def cUpdInvalid : Str := "manifest.update.invalid".toList
 def cWrongParents : Str := "manifest.update.wrongParents".toList
 def cMultipleParents : Str := "manifest.multipleParents".toList
 def cDataHashMismatch : Str := "assertion.dataHash.mismatch".toList
+def cBmffHashMismatch : Str := "assertion.bmffHash.mismatch".toList
+def cBoxHashMismatch : Str := "assertion.boxesHash.mismatch".toList
+
+theorem hash_mismatch_not_tolerated :
+    C04.tolerated cDataHashMismatch = false ∧ C04.tolerated cBmffHashMismatch = false ∧
+    C04.tolerated cBoxHashMismatch = false := by decide
 
 theorem update_codes_not_tolerated :
     C04.tolerated cUpdInvalid = false ∧ C04.tolerated cWrongParents = false ∧
@@ -110,7 +129,7 @@ theorem manifestRules_failures (c : C20.Claim) (ing : Bool) :
     · by_cases ht : thumbCount c > 1
       · simp [ht] at he; subst he; exact ⟨rfl, Or.inl rfl⟩
       · simp [ht] at he
-    · cases hh : hasHash c
+    · cases hh : hasBindingLabel c
       · simp [hh] at he
       · simp [hh] at he; subst he; exact ⟨rfl, Or.inl rfl⟩
     · unfold updateParentEvents at he
@@ -124,34 +143,73 @@ theorem manifestRules_failures (c : C20.Claim) (ing : Bool) :
     · simp [h] at he; subst he; exact ⟨rfl, Or.inr (Or.inr rfl)⟩
     · simp [h] at he
 
+/-- every event of the rule block carries the scope flag it was given -/
+theorem manifestRules_scope (c : C20.Claim) (ing : Bool) : ∀ e ∈ manifestRules c ing, e.ing = ing := by
+  intro e he
+  unfold manifestRules at he
+  by_cases hu : c.update = true
+  · simp only [hu, if_true, List.mem_append] at he
+    rcases he with ((he | he) | he) | he
+    · unfold disallowedActionEvents at he
+      simp only [List.mem_flatMap] at he
+      obtain ⟨_, _, a, _, ha⟩ := he
+      by_cases hc : allowedUpdateActions.any (· == a.name) = true
+      · simp [hc] at ha
+      · simp [hc] at ha; subst ha; rfl
+    · by_cases ht : thumbCount c > 1
+      · simp [ht] at he; subst he; rfl
+      · simp [ht] at he
+    · cases hh : hasBindingLabel c
+      · simp [hh] at he
+      · simp [hh] at he; subst he; rfl
+    · unfold updateParentEvents at he
+      split at he
+      · simp at he; subst he; rfl
+      · simp at he
+      · simp at he; subst he; rfl
+  · simp only [hu] at he
+    by_cases hp : parentCount c > 1
+    · simp [hp] at he; subst he; rfl
+    · simp [hp] at he
+
 /-- **update_valid_iff_rules (verdict)** — an update manifest on which `verify_claim` runs and
 which violates a rule is never reported Valid: the reported state (C04) is `Invalid` for every
 log before and after, unless that very status was already recorded in an ingredient assertion. -/
 theorem update_violation_invalid (c : C20.Claim) (reds : List Str) (map : List C20.Claim) (ing : Bool)
     (o : C20.Out) (h : verifyClaim c reds map ing = some o)
     (hu : c.update = true) (hv : ¬ UpdateRulesHold c)
-    (pre post : List C20.Ev) (keep : C20.Ev → Bool) (uriOf : C20.Ev → List Char) (r0 : C04.Results)
-    (hkeep : ∀ e ∈ manifestRules c ing, keep e = true) :
-    C04.state (report keep uriOf r0 (pre ++ o.log ++ post)) = .invalid := by
+    (pre post : List C20.Ev) (sts : List St) (hdec : Decorates sts (pre ++ o.log ++ post))
+    (active : Str) (recs : List Rec) (uriOf : St → List Char) (r0 res : C04.Results)
+    (hrep : reportS active recs uriOf r0 sts = some res)
+    (hrec : ing = true → ∀ s ∈ sts, s.ing = true →
+      (s.code = cUpdInvalid ∨ s.code = cWrongParents ∨ s.code = cMultipleParents) →
+        recordedIn recs s = false) :
+    C04.state res = .invalid := by
   have hne : manifestRules c ing ≠ [] := fun hnil => hv ((update_valid_iff_rules c ing hu).1 hnil)
   obtain ⟨e, he⟩ := List.exists_mem_of_ne_nil _ hne
   obtain ⟨hf, hc⟩ := manifestRules_failures c ing e he
   obtain ⟨_, _, _, _, hhead, _⟩ := verifyClaim_log_contains c reds map ing o h
   have hin : e ∈ o.log := hhead e (List.mem_append_right _ he)
+  have hin' : e ∈ pre ++ o.log ++ post := List.mem_append_left _ (List.mem_append_right _ hin)
   have ht : C04.tolerated e.code = false := by
     obtain ⟨t1, t2, t3, _⟩ := update_codes_not_tolerated
     rcases hc with hc | hc | hc <;> rw [hc] <;> assumption
-  exact report_invalid keep uriOf r0 _ e
-    (List.mem_append_left _ (List.mem_append_right _ hin)) (hkeep e he) hf ht
+  have hing : e.ing = ing := manifestRules_scope c ing e he
+  cases hi : ing
+  · exact active_scope_failure_invalid _ e hin' hf (by rw [hing, hi]) ht sts hdec active recs uriOf r0 res hrep
+  · refine unrecorded_failure_invalid _ e hin' hf ht sts hdec active recs uriOf r0 res ?_ hrep
+    intro s hs hcode hsi
+    exact hrec hi s hs hsi (by rw [hcode]; exact hc)
 
 /-- **store level** — `verify_store` on a store whose active manifest is an update manifest that
 violates a rule either returns `Err` (the Reader fails) or reports `Invalid`. -/
 theorem active_update_violation_never_valid (s : C20.Store) (o : C20.Out)
     (h : verifyStore s = some o) (root : C20.Claim) (hroot : s.getLast? = some root)
     (hu : root.update = true) (hv : ¬ UpdateRulesHold root)
-    (keep : C20.Ev → Bool) (uriOf : C20.Ev → List Char) (r0 : C04.Results)
-    (hkeep : ∀ e, e.ing = false → keep e = true) :
-    o.err = true ∨ C04.state (report keep uriOf r0 o.log) = .invalid := by
+    (sts : List St) (hdec : Decorates sts o.log)
+    (active : Str) (recs : List Rec) (uriOf : St → List Char) (r0 res : C04.Results)
+    (hrep : reportS active recs uriOf r0 sts = some res) :
+    o.err = true ∨ C04.state res = .invalid := by
   rcases verifyStore_contains_root s o h with herr | ⟨root', reds, map, vc, hr', hvc, hsub⟩
   · exact Or.inl herr
   · right
@@ -162,35 +220,11 @@ theorem active_update_violation_never_valid (s : C20.Store) (o : C20.Out)
     obtain ⟨hf, hc⟩ := manifestRules_failures root false e he
     obtain ⟨_, _, _, _, hhead, _⟩ := verifyClaim_log_contains root reds map false vc hvc
     have hin : e ∈ o.log := hsub e (hhead e (List.mem_append_right _ he))
-    have hing : e.ing = false := by
-      -- every event of the rule block carries the scope flag it was given
-      have : ∀ e ∈ manifestRules root false, e.ing = false := by
-        intro e he
-        unfold manifestRules at he
-        simp only [hu, if_true, List.mem_append] at he
-        rcases he with ((he | he) | he) | he
-        · unfold disallowedActionEvents at he
-          simp only [List.mem_flatMap] at he
-          obtain ⟨_, _, a, _, ha⟩ := he
-          by_cases hc : allowedUpdateActions.any (· == a.name) = true
-          · simp [hc] at ha
-          · simp [hc] at ha; subst ha; rfl
-        · by_cases ht : thumbCount root > 1
-          · simp [ht] at he; subst he; rfl
-          · simp [ht] at he
-        · cases hh : hasHash root
-          · simp [hh] at he
-          · simp [hh] at he; subst he; rfl
-        · unfold updateParentEvents at he
-          split at he
-          · simp at he; subst he; rfl
-          · simp at he
-          · simp at he; subst he; rfl
-      exact this e he
+    have hing : e.ing = false := manifestRules_scope root false e he
     have ht : C04.tolerated e.code = false := by
       obtain ⟨t1, t2, t3, _⟩ := update_codes_not_tolerated
       rcases hc with hc | hc | hc <;> rw [hc] <;> assumption
-    exact report_invalid keep uriOf r0 _ e hin (hkeep e hing) hf ht
+    exact active_scope_failure_invalid _ e hin hf hing ht sts hdec active recs uriOf r0 res hrep
 
 /-! ### selection of hashed bytes -/
 
@@ -377,50 +411,351 @@ theorem update_preserves_binding {α : Type} (E1 E2 : List Rng) (s m m' : Nat)
     constructor <;> (intro h; omega)
   rw [h1, h2, h2', h3]
 
-/-! ### content changes -/
+/-- **content_bound_after_update** — both directions, for an arbitrary new prefix `pre'` of the
+same length and an arbitrary new tail `post'` (any length: truncation, insertion and append are
+covered): the binding of the parent manifest, evaluated with the re-based exclusions on the
+updated asset `pre' ++ M' ++ post'`, matches what was signed (`pre ++ M ++ post` under the
+original exclusions) **iff** the content outside the manifest store is what was signed — i.e. iff
+the asset with the *old* store put back selects the same bytes. -/
+theorem content_bound_after_update {α : Type} (E1 E2 : List Rng) (s m m' : Nat)
+    (pre pre' M M' post post' : List α)
+    (hpre' : pre'.length = s) (hM : M.length = m) (hM' : M'.length = m')
+    (hs : 0 < s) (hm : 0 < m)
+    (hE1 : ∀ e ∈ E1, e.start ≠ s)
+    (hdisj : ∀ e ∈ E1 ++ E2, e.start + e.len ≤ s ∨ s + m ≤ e.start)
+    (hgrow : m ≤ m' ∨ ∀ e ∈ E1 ++ E2, e.start + e.len ≤ s) :
+    sel (rebase (E1 ++ ⟨s, m⟩ :: E2) (some ⟨s, m'⟩)) 0 (pre' ++ M' ++ post') =
+        sel (E1 ++ ⟨s, m⟩ :: E2) 0 (pre ++ M ++ post) ↔
+      sel (E1 ++ ⟨s, m⟩ :: E2) 0 (pre' ++ M ++ post') =
+        sel (E1 ++ ⟨s, m⟩ :: E2) 0 (pre ++ M ++ post) := by
+  rw [update_preserves_binding E1 E2 s m m' pre' M M' post' hpre' hM hM' hs hm hE1 hdisj hgrow]
 
-/-- **content_change_detected** — with a collision-free hash `H`, the data-hash comparison on
-the updated asset (re-based exclusions) succeeds exactly when the selected bytes are the
-bytes the parent manifest signed; if the content behind or before the store changed, the
-failure `assertion.dataHash.mismatch` is logged. -/
+/-- the selection ignores what is inside the store range: any two store contents of the right
+lengths give the same selected bytes -/
+theorem store_bytes_irrelevant {α : Type} (E1 E2 : List Rng) (s m : Nat) (pre M N post : List α)
+    (hpre : pre.length = s) (hM : M.length = m) (hN : N.length = m) :
+    sel (E1 ++ ⟨s, m⟩ :: E2) 0 (pre ++ M ++ post) = sel (E1 ++ ⟨s, m⟩ :: E2) 0 (pre ++ N ++ post) := by
+  have hcov : ∀ (X : List α), X.length = m → sel (E1 ++ ⟨s, m⟩ :: E2) s X = [] := by
+    intro X hX
+    apply sel_all_covered
+    intro j hj
+    rw [hX] at hj
+    simp only [covered_append, covered_cons]
+    have : cov ⟨s, m⟩ (s + j) = true := by rw [cov_iff]; simp only []; omega
+    simp [this]
+  rw [List.append_assoc, List.append_assoc, sel_append, sel_append, sel_append, sel_append]
+  simp only [Nat.zero_add, hpre, hM, hN]
+  rw [hcov M hM, hcov N hN]
+
+/-! ### which manifest's binding is checked (`get_hash_binding_manifest`) -/
+
+/-- `b` names a claim of the store that is not an update manifest and has a hard binding -/
+def BoundIn (s : C20.Store) (b : Str) : Prop :=
+  ∃ p, getClaim s b = some p ∧ p.label = b ∧ p.update = false ∧ hasHash p = true
+
+theorem getClaim_label (s : C20.Store) (l : Str) (p : C20.Claim) (h : getClaim s l = some p) :
+    p.label = l := by
+  unfold getClaim at h
+  have := List.find?_some h
+  simpa using this
+
+theorem hbScan_spec (s : C20.Store) (fuel : Nat)
+    (hP : ∀ c vis b, hbm s fuel c vis = some (some b) →
+      (b = c.label ∧ c.update = false ∧ hasHash c = true) ∨ BoundIn s b) :
+    ∀ (l : List (C20.CA × Option C20.IngD)) (vis : List Str) (b : Str),
+      hbScan s fuel vis l = some (some b) → BoundIn s b := by
+  intro l
+  induction l with
+  | nil => intro vis b h; unfold hbScan at h; simp at h
+  | cons x rest ih =>
+    intro vis b h
+    obtain ⟨a, d⟩ := x
+    unfold hbScan at h
+    cases d with
+    | none => simp at h
+    | some d =>
+      simp only [] at h
+      by_cases hrel : (d.rel == C20.Rel.parentOf) = true
+      · simp only [hrel, if_true] at h
+        cases ht : d.target with
+        | none => simp only [ht] at h; exact ih vis b h
+        | some t =>
+          simp only [ht] at h
+          cases hml : manifestLabelFromUri t.url with
+          | none => simp [hml] at h
+          | some ol =>
+            cases ol with
+            | none => simp [hml] at h
+            | some pl =>
+              simp only [hml] at h
+              cases hg : getClaim s pl with
+              | none => simp only [hg] at h; exact ih vis b h
+              | some p =>
+                simp only [hg] at h
+                have hlab := getClaim_label s pl p hg
+                by_cases hu : p.update = true
+                · rw [if_pos hu] at h
+                  rcases hP p vis b h with ⟨hb, hu', _⟩ | hb
+                  · rw [hu] at hu'; cases hu'
+                  · exact hb
+                · rw [if_neg hu] at h
+                  by_cases hh : hasHash p = true
+                  · rw [if_pos hh] at h
+                    simp only [Option.some.injEq] at h
+                    subst h
+                    exact ⟨p, by rw [hlab]; exact hg, rfl, by simpa using hu, hh⟩
+                  · rw [if_neg hh] at h
+                    exact ih vis b h
+      · simp only [hrel] at h
+        exact ih vis b h
+
+/-- **hbm_spec** — whatever `get_hash_binding_manifest` returns is the label of a manifest that
+is not an update manifest and carries a hard binding: the starting claim itself, or a claim of
+the store. (If it could return an update or hash-less claim, `verify_hash_binding` would loop
+over zero hard bindings and any content would be accepted.) -/
+theorem hbm_spec (s : C20.Store) :
+    ∀ (fuel : Nat) (c : C20.Claim) (vis : List Str) (b : Str), hbm s fuel c vis = some (some b) →
+      (b = c.label ∧ c.update = false ∧ hasHash c = true) ∨ BoundIn s b := by
+  intro fuel
+  induction fuel with
+  | zero => intro c vis b h; unfold hbm at h; simp at h
+  | succ n ih =>
+    intro c vis b h
+    unfold hbm at h
+    by_cases hv : vis.contains c.label = true
+    · rw [if_pos hv] at h; simp at h
+    · rw [if_neg hv] at h
+      by_cases hc : (!c.update && hasHash c) = true
+      · rw [if_pos hc] at h
+        simp only [Option.some.injEq] at h
+        left
+        simp only [Bool.and_eq_true, Bool.not_eq_true'] at hc
+        exact ⟨h.symm, hc.1, hc.2⟩
+      · rw [if_neg hc] at h
+        exact Or.inr (hbScan_spec s n ih _ _ b h)
+
+theorem getClaim_of_mem_nodup :
+    ∀ (s : C20.Store) (c : C20.Claim), (s.map (·.label)).Nodup → c ∈ s → getClaim s c.label = some c := by
+  intro s
+  induction s with
+  | nil => intro c _ hc; cases hc
+  | cons x xs ih =>
+    intro c hnd hc
+    simp only [List.map_cons, List.nodup_cons] at hnd
+    unfold getClaim
+    simp only [List.find?_cons]
+    rcases List.mem_cons.1 hc with rfl | hc
+    · simp
+    · have hne : (x.label == c.label) = false := by
+        apply beq_false_of_ne
+        intro heq
+        exact hnd.1 (heq ▸ List.mem_map.2 ⟨c, hc, rfl⟩)
+      simp only [hne]
+      exact ih c hnd.2 hc
+
+/-- **the claim whose hard binding `verify_store` checks against the asset** is a claim of the
+store (manifest labels are unique, as in the `claims_map` of a real store) that is not an update
+manifest and has a hard binding -/
+theorem bindingClaim_spec (s : C20.Store) (hnd : (s.map (·.label)).Nodup) (root bc : C20.Claim)
+    (h : bindingClaim s = some (some (root, bc))) :
+    s.getLast? = some root ∧ getClaim s bc.label = some bc ∧ bc.update = false ∧ hasHash bc = true := by
+  unfold bindingClaim at h
+  cases hr : s.getLast? with
+  | none => simp [hr] at h
+  | some r =>
+    simp only [hr] at h
+    cases hb : hbm s (fuelFor s) r [] with
+    | none => simp [hb] at h
+    | some ob =>
+      cases ob with
+      | none => simp [hb] at h
+      | some bl =>
+        simp only [hb] at h
+        cases hg : getClaim s bl with
+        | none => simp [hg] at h
+        | some c =>
+          simp only [hg, Option.some.injEq, Prod.mk.injEq] at h
+          obtain ⟨h1, h2⟩ := h
+          subst h1; subst h2
+          have hlab := getClaim_label s bl c hg
+          refine ⟨rfl, by rw [hlab]; exact hg, ?_⟩
+          rcases hbm_spec s _ r [] bl hb with ⟨hbl, hu, hh⟩ | ⟨p, hp, _, hu, hh⟩
+          · have hmem : r ∈ s := List.mem_of_getLast? hr
+            have := getClaim_of_mem_nodup s r hnd hmem
+            rw [← hbl, hg] at this
+            cases this
+            exact ⟨hu, hh⟩
+          · rw [hg] at hp; cases hp; exact ⟨hu, hh⟩
+
+/-! ### the asset step: gates, detection, verdict -/
+
+theorem hashEvent_scope (k : HK) (ok : Bool) : ∀ e ∈ hashEvent k ok, e.ing = false := by
+  intro e he
+  cases k <;> cases ok <;> simp [hashEvent] at he <;> (subst he; rfl)
+
+theorem hashEvents_scope : ∀ (l : List C20.CA) (oks : List Bool), ∀ e ∈ hashEvents l oks, e.ing = false := by
+  intro l
+  induction l with
+  | nil => intro oks e he; simp [hashEvents] at he
+  | cons a as ih =>
+    intro oks e he
+    simp only [hashEvents, List.mem_append] at he
+    rcases he with he | he
+    · exact hashEvent_scope _ _ e he
+    · exact ih _ e he
+
+/-- a hard binding whose hash did not match logs its mismatch failure -/
+theorem hashEvents_mismatch :
+    ∀ (l : List C20.CA) (oks : List Bool) (i : Nat) (a : C20.CA), l[i]? = some a → oks[i]? = some false →
+      hashKind a.label ≠ .other →
+      ∃ e ∈ hashEvents l oks, e.isFailure = true ∧ e.ing = false ∧
+        (e.code = cDataHashMismatch ∨ e.code = cBmffHashMismatch ∨ e.code = cBoxHashMismatch) := by
+  intro l
+  induction l with
+  | nil => intro oks i a h; simp at h
+  | cons x xs ih =>
+    intro oks i a hl ho hk
+    cases i with
+    | zero =>
+      simp only [List.getElem?_cons_zero, Option.some.injEq] at hl
+      subst hl
+      cases oks with
+      | nil => simp at ho
+      | cons o os =>
+        simp only [List.getElem?_cons_zero, Option.some.injEq] at ho
+        subst ho
+        simp only [hashEvents, List.headD_cons, List.mem_append]
+        cases hkk : hashKind x.label with
+        | data =>
+          exact ⟨C20.fail "assertion.dataHash.mismatch" false, Or.inl (by simp [hashEvent]), rfl, rfl,
+            Or.inl rfl⟩
+        | bmff =>
+          exact ⟨C20.fail "assertion.bmffHash.mismatch" false, Or.inl (by simp [hashEvent]), rfl, rfl,
+            Or.inr (Or.inl rfl)⟩
+        | boxes =>
+          exact ⟨C20.fail "assertion.boxesHash.mismatch" false, Or.inl (by simp [hashEvent]), rfl, rfl,
+            Or.inr (Or.inr rfl)⟩
+        | other => exact absurd hkk hk
+    | succ n =>
+      simp only [List.getElem?_cons_succ] at hl
+      cases oks with
+      | nil => simp at ho
+      | cons o os =>
+        simp only [List.getElem?_cons_succ] at ho
+        obtain ⟨e, he, h1, h2, h3⟩ := ih os n a hl ho hk
+        refine ⟨e, ?_, h1, h2, h3⟩
+        simp only [hashEvents, List.tail_cons, List.mem_append]
+        exact Or.inr he
+
+/-- **gates of the asset step** — `verify_store` with an asset logs hard-binding statuses only
+after `verify_claim` of the active manifest and `ingredient_checks` returned `Ok`, and then for
+the claim `get_hash_binding_manifest` names: a claim of the store, not an update manifest, with
+a hard binding. In every other case the result is the result without the asset. -/
+theorem verifyStoreAB_spec (s : C20.Store) (hnd : (s.map (·.label)).Nodup) (oks : List Bool)
+    (o : C20.Out) (b : Option Str) (h : verifyStoreAB s oks = some (o, b)) :
+    ∃ o0, verifyStore s = some o0 ∧
+      ((b = none ∧ o = o0) ∨
+       (o0.err = false ∧ ∃ root bc, bindingClaim s = some (some (root, bc)) ∧ b = some bc.label ∧
+          getClaim s bc.label = some bc ∧ bc.update = false ∧ hasHash bc = true ∧
+          o = ⟨o0.log ++ bindingEvents bc oks, false⟩)) := by
+  unfold verifyStoreAB at h
+  cases hv : verifyStore s with
+  | none => simp [hv] at h
+  | some o0 =>
+    simp only [hv] at h
+    refine ⟨o0, rfl, ?_⟩
+    by_cases he : o0.err = true
+    · rw [if_pos he] at h
+      simp only [Option.some.injEq, Prod.mk.injEq] at h
+      exact Or.inl ⟨h.2.symm, h.1.symm⟩
+    · rw [if_neg he] at h
+      cases hb : bindingClaim s with
+      | none => simp [hb] at h
+      | some ob =>
+        cases ob with
+        | none =>
+          simp only [hb, Option.some.injEq, Prod.mk.injEq] at h
+          exact Or.inl ⟨h.2.symm, h.1.symm⟩
+        | some rb =>
+          obtain ⟨root, bc⟩ := rb
+          simp only [hb, Option.some.injEq, Prod.mk.injEq] at h
+          obtain ⟨_, hg, hu, hh⟩ := bindingClaim_spec s hnd root bc hb
+          exact Or.inr ⟨by simpa using he, root, bc, rfl, h.2.symm, hg, hu, hh, h.1.symm⟩
+
+/-- **content change ⇒ never Valid (store level)** — when the asset step is reached and the hash
+of some hard binding of the binding claim does not match the asset, the Reader's state is
+`Invalid`: the mismatch is logged for the active manifest's own validation (no ingredient URI;
+its URL names the binding manifest — the *parent* when the active manifest is an update
+manifest), so `from_store` keeps it whatever the ingredient assertions record. Before
+`fixes/C20-from-store-active-claim-status-filter.patch` an update manifest that pre-recorded its
+parent's mismatch made exactly this status disappear (harness variant `ok_plain_prerec`). -/
+theorem content_mismatch_never_valid (s : C20.Store) (oks : List Bool) (o : C20.Out) (bl : Str)
+    (h : verifyStoreAB s oks = some (o, some bl))
+    (bc : C20.Claim) (root : C20.Claim) (hbc : bindingClaim s = some (some (root, bc)))
+    (i : Nat) (a : C20.CA) (ha : (hashCAs bc)[i]? = some a) (hno : oks[i]? = some false)
+    (hk : hashKind a.label ≠ .other)
+    (sts : List St) (hdec : Decorates sts o.log)
+    (active : Str) (recs : List Rec) (uriOf : St → List Char) (r0 res : C04.Results)
+    (hrep : reportS active recs uriOf r0 sts = some res) :
+    C04.state res = .invalid := by
+  unfold verifyStoreAB at h
+  cases hv : verifyStore s with
+  | none => simp [hv] at h
+  | some o0 =>
+    simp only [hv] at h
+    by_cases he : o0.err = true
+    · simp [he] at h
+    · rw [if_neg he] at h
+      simp only [hbc, Option.some.injEq, Prod.mk.injEq] at h
+      obtain ⟨ho, _⟩ := h
+      obtain ⟨e, hmem, hf, hing, hc⟩ := hashEvents_mismatch (hashCAs bc) oks i a ha hno hk
+      have hin : e ∈ o.log := by
+        rw [← ho]
+        simp only [bindingEvents]
+        exact List.mem_append_right _ (List.mem_append_right _ hmem)
+      have ht : C04.tolerated e.code = false := by
+        obtain ⟨t1, t2, t3⟩ := hash_mismatch_not_tolerated
+        rcases hc with hc | hc | hc <;> rw [hc] <;> assumption
+      exact active_scope_failure_invalid _ e hin hf hing ht sts hdec active recs uriOf r0 res hrep
+
+/-- `verify_store` against an asset whose binding manifest carries one data hash `hb` that was
+made over `signed` (`hb.stored = H (sel hb.excl 0 signed)`), with a collision-free `H`: the
+asset step logs `assertion.dataHash.mismatch` **iff** the bytes selected in `asset` by the
+effective exclusions (re-based iff the active manifest is an update manifest) differ from the
+signed selection. -/
 theorem content_change_detected {α δ : Type} [DecidableEq δ] (H : List α → δ)
     (hinj : ∀ a b, H a = H b → a = b)
-    (excl : List Rng) (signed asset' : List α) (excl' : List Rng) :
-    dataHashEvent H (H (sel excl 0 signed)) excl' asset' = C20.succ "assertion.dataHash.match" false ↔
-      sel excl' 0 asset' = sel excl 0 signed := by
-  unfold dataHashEvent
-  by_cases h : H (sel excl' 0 asset') = H (sel excl 0 signed)
-  · simp only [h, if_true, true_iff]; exact hinj _ _ h
-  · simp only [h, if_false]
-    constructor
-    · intro hc
-      have hk := congrArg C20.Ev.kind hc
-      simp [C20.fail, C20.succ] at hk
-    · intro hc; rw [hc] at h; exact absurd rfl h
+    (upd : Bool) (range : Option Rng) (excl : List Rng) (signed asset : List α) :
+    hashOk H upd range asset ⟨H (sel excl 0 signed), excl⟩ = true ↔
+      sel (effExcl upd range excl) 0 asset = sel excl 0 signed := by
+  unfold hashOk
+  simp only [decide_eq_true_eq]
+  exact ⟨fun h => hinj _ _ h, fun h => by rw [h]⟩
 
-/-- the two composed: after an update that kept the content (`post' = post`, `pre' = pre`) the
-binding still matches; after any change of the selected content it does not, and the reported
-state is `Invalid`. -/
-theorem content_change_invalid {α δ : Type} [DecidableEq δ] (H : List α → δ)
+/-- the two gates in one statement: under an active update manifest whose store moved from
+`(s,m)` to `(s,m')`, the parent's data hash matches the updated asset `pre' ++ M' ++ post'` iff
+the content outside the store is what the parent signed; under a non-update active manifest no
+re-basing happens (`effExcl false`), the exclusions are used as they are. -/
+theorem update_binding_iff_content {α δ : Type} [DecidableEq δ] (H : List α → δ)
     (hinj : ∀ a b, H a = H b → a = b)
-    (excl excl' : List Rng) (signed asset' : List α)
-    (hchanged : sel excl' 0 asset' ≠ sel excl 0 signed)
-    (pre post : List C20.Ev) (keep : C20.Ev → Bool) (uriOf : C20.Ev → List Char) (r0 : C04.Results)
-    (hkeep : keep (C20.fail "assertion.dataHash.mismatch" false) = true) :
-    C04.state (report keep uriOf r0
-      (pre ++ [dataHashEvent H (H (sel excl 0 signed)) excl' asset'] ++ post)) = .invalid := by
-  have hev : dataHashEvent H (H (sel excl 0 signed)) excl' asset' =
-      C20.fail "assertion.dataHash.mismatch" false := by
-    unfold dataHashEvent
-    have : ¬ H (sel excl' 0 asset') = H (sel excl 0 signed) := fun h => hchanged (hinj _ _ h)
-    simp [this]
-  rw [hev]
-  exact report_invalid keep uriOf r0 _ _
-    (List.mem_append_left _ (List.mem_append_right _ (List.mem_singleton.2 rfl))) hkeep rfl
-    update_codes_not_tolerated.2.2.2
+    (E1 E2 : List Rng) (s m m' : Nat) (pre pre' M M' post post' : List α)
+    (hpre' : pre'.length = s) (hM : M.length = m) (hM' : M'.length = m')
+    (hs : 0 < s) (hm : 0 < m)
+    (hE1 : ∀ e ∈ E1, e.start ≠ s)
+    (hdisj : ∀ e ∈ E1 ++ E2, e.start + e.len ≤ s ∨ s + m ≤ e.start)
+    (hgrow : m ≤ m' ∨ ∀ e ∈ E1 ++ E2, e.start + e.len ≤ s) :
+    hashOk H true (some ⟨s, m'⟩) (pre' ++ M' ++ post')
+        ⟨H (sel (E1 ++ ⟨s, m⟩ :: E2) 0 (pre ++ M ++ post)), E1 ++ ⟨s, m⟩ :: E2⟩ = true ↔
+      sel (E1 ++ ⟨s, m⟩ :: E2) 0 (pre' ++ M ++ post') =
+        sel (E1 ++ ⟨s, m⟩ :: E2) 0 (pre ++ M ++ post) := by
+  rw [content_change_detected H hinj]
+  simp only [effExcl, if_true]
+  exact content_bound_after_update E1 E2 s m m' pre pre' M M' post post' hpre' hM hM' hs hm hE1 hdisj hgrow
+
+theorem effExcl_not_update (range : Option Rng) (excl : List Rng) : effExcl false range excl = excl := rfl
 
 /-- changing a selected byte changes the selection: a byte at an uncovered offset of the asset
-is part of what is hashed (so `hchanged` above is met by any change of a content byte) -/
+is part of what is hashed -/
 theorem selected_byte_matters {α : Type} (excl : List Rng) (pre post : List α) (x y : α) (hxy : x ≠ y)
     (hunc : covered excl pre.length = false) :
     sel excl 0 (pre ++ x :: post) ≠ sel excl 0 (pre ++ y :: post) := by
@@ -431,6 +766,47 @@ theorem selected_byte_matters {α : Type} (excl : List Rng) (pre post : List α)
   have h' := List.append_cancel_left h
   injection h' with h1 _
   exact hxy h1
+
+/-- length of the selection when nothing behind `off` is covered: inserting, appending or
+truncating uncovered content changes the number of selected bytes, hence the selection -/
+theorem sel_length_uncovered {α : Type} (excl : List Rng) :
+    ∀ (l : List α) (off : Nat), (∀ j, j < l.length → covered excl (off + j) = false) →
+      (sel excl off l).length = l.length := by
+  intro l
+  induction l with
+  | nil => intro off _; rfl
+  | cons b bs ih =>
+    intro off h
+    have h0 : covered excl off = false := by simpa using h 0 (by simp)
+    simp only [sel, h0, Bool.false_eq_true, if_false, List.singleton_append, List.length_cons]
+    rw [ih (off + 1)]
+    intro j hj
+    have := h (j + 1) (by simp; omega)
+    rwa [show off + (j + 1) = off + 1 + j by omega] at this
+
+/-- **length-changing content mutations** — appending to, truncating or inserting into a tail of
+the asset no exclusion covers changes the selection (so, with `content_change_detected`, the
+binding does not match) -/
+theorem tail_length_change_matters {α : Type} (excl : List Rng) (pre post post' : List α)
+    (hlen : post.length ≠ post'.length)
+    (hunc : ∀ j, covered excl (pre.length + j) = false) :
+    sel excl 0 (pre ++ post) ≠ sel excl 0 (pre ++ post') := by
+  intro h
+  rw [sel_append, sel_append, Nat.zero_add] at h
+  have h' := List.append_cancel_left h
+  have l1 := sel_length_uncovered excl post pre.length (fun j _ => hunc j)
+  have l2 := sel_length_uncovered excl post' pre.length (fun j _ => hunc j)
+  rw [h'] at l1
+  exact hlen (l1.symm.trans l2)
+
+/-! ### constants read from the sources (translators/c20_labels.py) -/
+
+theorem allowedUpdateActions_gen : allowedUpdateActions = C20.Gen.allowedUpdateActions := rfl
+theorem cClaimThumb_gen : cClaimThumb = C20.Gen.claimThumbnail := rfl
+/-- the thumbnail rule of the update branch is `count > 1` in the source, as in `manifestRules` -/
+theorem updateThumbnailLimit_gen : C20.Gen.updateThumbnailLimit = 1 := rfl
+theorem hashKind_labels_gen :
+    [cHashData, cHashBoxes, cHashBmff] = C20.Gen.hashLabels.take 3 := rfl
 
 /-! ### non-vacuity -/
 
@@ -455,5 +831,65 @@ example : manifestRules { exUpdate with store := exUpdate.store ++ [⟨"c2pa.has
     = [C20.fail "manifest.update.invalid" false] := by decide
 example : manifestRules { exUpdate with store := exUpdate.store.drop 1 } false
     = [C20.fail "manifest.update.wrongParents" false] := by decide
+
+/-! the asset step on the one-manifest store of `Props/C20.lean` (`exSolo`, data hash `h7`) -/
+
+theorem exSolo_binding : bindingClaim [exSolo] = some (some (exSolo, exSolo)) := by
+  unfold bindingClaim
+  have hg : getClaim [exSolo] lA = some exSolo := by decide
+  simp only [List.getLast?_singleton, fuelFor, List.length_singleton, Nat.reduceAdd, exSolo_hbm, hg]
+
+example : (([exSolo] : C20.Store).map (·.label)).Nodup := by decide
+example : hashCAs exSolo = [exHashCA "h7"] ∧ hashKind (exHashCA "h7").label = .data := by decide
+
+/-- content changed (`oks = [false]`): the mismatch is logged behind the store log, for `lA` -/
+example : verifyStoreAB [exSolo] [false] =
+    some (⟨logSolo ++ [C20.fail "assertion.dataHash.mismatch" false], false⟩, some lA) := by
+  unfold verifyStoreAB
+  simp only [exSolo_run, exSolo_binding]
+  decide
+
+/-- all hypotheses of `content_mismatch_never_valid` hold for it -/
+example (sts : List St)
+    (hdec : Decorates sts (logSolo ++ [C20.fail "assertion.dataHash.mismatch" false]))
+    (active : Str) (recs : List Rec) (uriOf : St → List Char) (r0 res : C04.Results)
+    (hrep : reportS active recs uriOf r0 sts = some res) : C04.state res = .invalid := by
+  have hrun : verifyStoreAB [exSolo] [false] =
+      some (⟨logSolo ++ [C20.fail "assertion.dataHash.mismatch" false], false⟩, some lA) := by
+    unfold verifyStoreAB
+    simp only [exSolo_run, exSolo_binding]
+    decide
+  exact content_mismatch_never_valid [exSolo] [false] _ lA hrun exSolo exSolo exSolo_binding 0
+    (exHashCA "h7") (by decide) (by decide) (by decide) sts hdec active recs uriOf r0 res hrep
+
+/-- an update manifest on top of a base: `get_hash_binding_manifest` names the base -/
+def exUpdOnBase : C20.Claim :=
+  { label := lA, version := 2, update := true, sigOk := true, assertions := [],
+    store := [exIngCA "b1"], redactions := none, boxHash := [], sigHash := [], dataHash := [] }
+
+example : hbm [exBase true, exUpdOnBase] 4 exUpdOnBase [] = some (some lB) := by
+  unfold hbm
+  have hi : ingAssertions exUpdOnBase = [(exIngCA "b1", some ⟨.parentOf, 3, true,
+      some ⟨"self#jumbf=/c2pa/".toList ++ lB, "b1".toList⟩,
+      some ⟨"self#jumbf=/c2pa/".toList ++ lB ++ "/c2pa.signature".toList, "sb".toList⟩⟩)] := by decide
+  have h1 : (([] : List Str).contains exUpdOnBase.label) = false := rfl
+  have h2 : (!exUpdOnBase.update && hasHash exUpdOnBase) = false := by decide
+  simp only [h1, h2, hi, Bool.false_eq_true, if_false]
+  unfold hbScan
+  have hm : manifestLabelFromUri ("self#jumbf=/c2pa/".toList ++ lB) = some (some lB) := by decide
+  have hg : getClaim [exBase true, exUpdOnBase] lB = some (exBase true) := by decide
+  have hu : (exBase true).update = false := rfl
+  have hh : hasHash (exBase true) = true := by decide
+  simp [hm, hg, hu, hh]
+  rfl
+
+/-- `content_bound_after_update` on numbers: store `(4,2)` grew to `(4,3)`; the tail was
+truncated by one byte: the binding does not match, and the right-hand side says why -/
+example : sel (rebase [⟨2, 1⟩, ⟨4, 2⟩] (some ⟨4, 3⟩)) 0 ([0, 1, 2, 3] ++ [90, 91, 92] ++ [6, 7])
+    ≠ sel [⟨2, 1⟩, ⟨4, 2⟩] 0 ([0, 1, 2, 3] ++ [80, 81] ++ [6, 7, 8]) := by decide
+example : sel [⟨2, 1⟩, ⟨4, 2⟩] 0 ([0, 1, 2, 3] ++ [80, 81] ++ [6, 7])
+    ≠ sel [⟨2, 1⟩, ⟨4, 2⟩] 0 ([0, 1, 2, 3] ++ [80, 81] ++ [6, 7, 8]) := by decide
+example : ∀ j, covered [⟨2, 1⟩, ⟨4, 2⟩] (([0, 1, 2, 3, 80, 81] : List Nat).length + j) = false := by
+  intro j; simp [covered]; omega
 
 end C2pa.C21
